@@ -113,4 +113,19 @@ def goroutineDirectly (srcPort dstPort : Nat) : Bool :=
 /-- `ShouldUseOrderedIngress` -/
 def orderedIngress (srcPort dstPort : Nat) : Bool := !goroutineDirectly srcPort dstPort
 
+/-! The two port sets are tuning constants of the code, not part of the property: the driver takes
+them from the harness (which reads them off the production predicates, port by port) and checks the
+*rule*: a flow is sniff-eligible / dispatched directly iff one of its two ports is in the set, and
+ordered ingress is the complement of direct dispatch. -/
+
+/-- port sets as lists of inclusive ranges -/
+def inRanges (rs : List (Nat × Nat)) (p : Nat) : Bool := rs.any fun r => r.1 ≤ p && p ≤ r.2
+
+def sniffPortsDefault : List (Nat × Nat) := [(443, 443), (8443, 8443)]
+def directPortsDefault : List (Nat × Nat) := [(53, 53), (3478, 3478), (5004, 5060)]
+
+def flowAllowsSniffingIn (rs : List (Nat × Nat)) (src dst : AP) : Bool := inRanges rs dst.port || inRanges rs src.port
+def goroutineDirectlyIn (rs : List (Nat × Nat)) (srcPort dstPort : Nat) : Bool := inRanges rs dstPort || inRanges rs srcPort
+def orderedIngressIn (rs : List (Nat × Nat)) (srcPort dstPort : Nat) : Bool := !goroutineDirectlyIn rs srcPort dstPort
+
 end DaeVerif.C13.Keys
